@@ -1,6 +1,7 @@
 package main
 
 import (
+	"go/token"
 	"fmt"
 	"go/types"
 	"sort"
@@ -137,6 +138,28 @@ func (ex *Exec) localEnv(fr *Frame, st *State) *CEnv {
 				if _, dup := env.vars[n]; !dup {
 					env.vars[n] = TV{&lazyCell{p}, derefType(a.Type())}
 				}
+			}
+		}
+	}
+	// locals described in the contract ("local x = result of f"): found by what they hold when the name is gone
+	if c := ex.lib.Contracts[funcKey(fr.fn)]; c != nil {
+		for _, cl := range c.Clauses {
+			if cl.Kind != "local" || !tagActive(cl.Tags, ex.prop) {
+				continue
+			}
+			a := findLocalByDesc(fr.fn, cl.Text)
+			if _, named := env.vars[cl.Names[0]]; named {
+				// the name still exists: the description must agree with it (so that descriptions do not rot)
+				if a == nil || a.Comment != cl.Names[0] {
+					ex.cerr("local %s: the description %q does not designate that variable", cl.Names[0], cl.Text)
+				}
+				continue
+			}
+			if a == nil {
+				continue // unresolved: the clauses that use the name report it
+			}
+			if p, ok := fr.env[a].(*Ptr); ok {
+				env.vars[cl.Names[0]] = TV{&lazyCell{p}, derefType(a.Type())}
 			}
 		}
 	}
@@ -391,4 +414,141 @@ func claimsGhostFrame(c *Contract, prop string) bool {
 		}
 	}
 	return false
+}
+
+// findLocalByDesc finds the local variable (its cell) a "local" clause describes:
+//
+//	result [k] of <callee> [#n]   the variable that receives result k (default 0) of the n-th (default 1st) call,
+//	                              in source order, of a function whose name ends with <callee>
+//	accumulator [#n]              the n-th (default 1st) variable, in source order, that is assigned append(itself, ...)
+//	counter [#n]                  the n-th variable that is assigned itself plus a constant
+func findLocalByDesc(fn *ssa.Function, desc string) *ssa.Alloc {
+	f := strings.Fields(desc)
+	if len(f) == 0 {
+		return nil
+	}
+	ord := 1
+	if last := f[len(f)-1]; strings.HasPrefix(last, "#") {
+		fmt.Sscanf(last, "#%d", &ord)
+		f = f[:len(f)-1]
+	}
+	var blocks []*ssa.BasicBlock
+	blocks = append(blocks, fn.Blocks...)
+	type cand struct {
+		pos   token.Pos
+		alloc *ssa.Alloc
+	}
+	var cands []cand
+	loadOf := func(v ssa.Value) *ssa.Alloc {
+		if u, ok := v.(*ssa.UnOp); ok && u.Op == token.MUL {
+			if a, ok := u.X.(*ssa.Alloc); ok {
+				return a
+			}
+		}
+		return nil
+	}
+	switch f[0] {
+	case "result":
+		k := 0
+		rest := f[1:]
+		if len(rest) > 0 && rest[0] != "of" {
+			fmt.Sscanf(rest[0], "%d", &k)
+			rest = rest[1:]
+		}
+		if len(rest) < 2 || rest[0] != "of" {
+			return nil
+		}
+		callee := rest[1]
+		for _, b := range blocks {
+			for _, ins := range b.Instrs {
+				st, ok := ins.(*ssa.Store)
+				if !ok {
+					continue
+				}
+				a, ok := st.Addr.(*ssa.Alloc)
+				if !ok || a.Comment == "" {
+					continue
+				}
+				var call *ssa.Call
+				idx := 0
+				switch v := st.Val.(type) {
+				case *ssa.Call:
+					call = v
+				case *ssa.Extract:
+					call, _ = v.Tuple.(*ssa.Call)
+					idx = v.Index
+				}
+				if call == nil || idx != k {
+					continue
+				}
+				name := ""
+				if call.Call.IsInvoke() {
+					name = call.Call.Method.Name()
+				} else if sc := call.Call.StaticCallee(); sc != nil {
+					name = sc.Name()
+				} else {
+					name = call.Call.Value.Name()
+				}
+				if name == callee || strings.HasSuffix(name, "."+callee) {
+					cands = append(cands, cand{call.Pos(), a})
+				}
+			}
+		}
+	case "accumulator":
+		seen := map[*ssa.Alloc]bool{}
+		for _, b := range blocks {
+			for _, ins := range b.Instrs {
+				st, ok := ins.(*ssa.Store)
+				if !ok {
+					continue
+				}
+				a, ok := st.Addr.(*ssa.Alloc)
+				if !ok || a.Comment == "" || seen[a] {
+					continue
+				}
+				call, ok := st.Val.(*ssa.Call)
+				if !ok {
+					continue
+				}
+				if bi, ok := call.Call.Value.(*ssa.Builtin); !ok || bi.Name() != "append" || len(call.Call.Args) == 0 {
+					continue
+				}
+				if loadOf(call.Call.Args[0]) == a {
+					seen[a] = true
+					cands = append(cands, cand{call.Pos(), a})
+				}
+			}
+		}
+	case "counter":
+		// the n-th variable that is assigned itself plus a constant
+		seen := map[*ssa.Alloc]bool{}
+		for _, b := range blocks {
+			for _, ins := range b.Instrs {
+				st, ok := ins.(*ssa.Store)
+				if !ok {
+					continue
+				}
+				a, ok := st.Addr.(*ssa.Alloc)
+				if !ok || a.Comment == "" || seen[a] {
+					continue
+				}
+				bo, ok := st.Val.(*ssa.BinOp)
+				if !ok || bo.Op != token.ADD {
+					continue
+				}
+				if _, isConst := bo.Y.(*ssa.Const); isConst && loadOf(bo.X) == a {
+					seen[a] = true
+					cands = append(cands, cand{st.Pos(), a})
+				}
+			}
+		}
+	default:
+		return nil
+	}
+	sort.SliceStable(cands, func(i, j int) bool { return cands[i].pos < cands[j].pos })
+	// distinct calls only (one call may be stored once per result)
+	if ord < 1 || ord > len(cands) {
+		return nil
+	}
+	return cands[ord-1].alloc
 }
